@@ -93,11 +93,11 @@ def boundary_rule(db, chk):
     equality (component-wise: `store/`, `store/.` and `store` are one directory), like Iter::new validates it - not by comparing the raw strings."""
     f = db.one(r"gix_fs::dir::remove::Iter<.a> as core::iter::traits::iterator::Iterator>::next$")
     fl = Flow(f)
-    cmps = [c for c in f.calls() if c.is_(r"cmp::PartialEq(<.*>)?>?::(eq|ne)$") and len(c.args) == 2
+    cmps = [c for c in f.calls() if c.is_(r"cmp::PartialEq(<.*>)?>?::(eq|ne)$|iter::traits::iterator::Iterator::(eq|ne)$|Iterator>?::(eq|ne)$") and len(c.args) == 2
             and any(any(r[0] == "arg" and ".boundary" in r[2] for r in fl.roots(a, stop_named=False)) for a in c.args)]
     chk.floor("remove::Iter::next: comparison with the boundary", len(cmps), 1)
     for c in cmps:
         tys = [f.locals[a["p"][0]] if "p" in a and isinstance(a["p"][0], int) else "" for a in c.args]
-        ok = all(re.search(r"std::path::Path(Buf)?$", t.replace("&", "").strip()) for t in tys)
+        ok = all(re.search(r"std::path::(Path(Buf)?|Components(<.*>)?)$", t.replace("&", "").replace("mut ", "").strip()) for t in tys)
         chk.ob("boundary-compared-as-path", "remove::Iter::next", ok, "the boundary is compared as %s: a boundary spelled `dir/` or `dir/.` is not recognised and the boundary directory itself (and empty ancestors) are removed" % tys,
                c.where(), key="boundary-compared-as-path")
